@@ -18,9 +18,13 @@ MANIFEST = {
             "shrinks (as a sublist) when the threshold grows, its fill factors equal computeFillFactor on the returned coordinates "
             "(in particular when the sub-aperture count divides the mask size, where cells are exact blocks); make_subaps_2d "
             "followed by reading back through the mask is the identity for every mask and payload type (induction over the mask), "
-            "with the initial value everywhere else.  The model is tied to the source by a bit-exact correspondence (same "
-            "definitions run at IEEE binary64 by the Lean driver vs the real code, incl. every 0/1 mask up to 3x3 / 4x4) and a "
-            "direct exact-rational oracle on the real code supplies failing inputs.",
+            "with the initial value everywhere else, the map having the payload type of the DATA whatever the type of the mask; "
+            "a cell whose mean EQUALS the threshold is selected, and in exact arithmetic mean >= t is the same test as "
+            "sum >= t*size (mean_ge_iff_sum_ge) - at binary64 it is not, which the harness exercises.  The model is tied to the source by a "
+            "bit-exact correspondence (same definitions run at IEEE binary64 by the Lean driver vs the real code, incl. every 0/1 mask up "
+            "to 3x3 / 4x4, masks of every dtype (float64/float32/uint8/bool/int, non-contiguous views), thresholds equal to the fill "
+            "k/N of an existing cell with N = 9, 25, 36, 49, 100) and a direct exact-rational oracle on the real code supplies "
+            "failing inputs.",
     "note": "Trusted: Lean kernel + propext/Classical.choice/Quot.sound; Mathlib's ordered-field, floor, Real.sqrt and Lebesgue-measure "
             "definitions; the hand-written model Model/Pupil.lean (checked against the real code on every run, exactly: every model "
             "operation is a single IEEE operation in both worlds); NumPy slicing/boolean-indexing/mean semantics are mirrored and "
@@ -33,7 +37,9 @@ REQUIRED = ["circle_is_indicator_sq", "circle_is_indicator", "circle_zero_or_one
             "active_iff_mean_ge", "active_iff_mean_ge'", "findActive_cells", "active_antitone", "cell_mean_is_mean",
             "bound_is_nearest", "cells_partition", "cells_nonempty", "cells_of_dvd", "fill_agree_field", "fill_agree", "fill_of_dvd",
             "scatter_gather_id", "scatter_gather_id_list", "scatter_counter", "scatter_at", "scatter_off_mask",
-            "circleArea_eq_card", "circle_area_le", "circle_area_ge", "circle_area_tendsto"]
+            "circleArea_eq_card", "circle_area_le", "circle_area_ge", "circle_area_tendsto",
+            "fill_is_mean_ge", "active_of_mean_eq", "not_active_of_mean_lt", "mean_ge_iff_sum_ge", "cell_mean_of_indicator",
+            "scatter_gather_id_mask", "scatter_gather_id_comp"]
 
 H = common.f2h
 
@@ -50,7 +56,7 @@ def gen_circle(rng, nmax):
     """(class, r, n, cx, cy, origin) — r >= 0; the dyadic classes are exact in binary64"""
     n = rng.randint(1, nmax)
     origin = rng.choice(["middle", "corner"])
-    cls = rng.choice(["dyadic", "dyadic", "tie", "tie", "float", "edge", "rzero", "int", "centred"])
+    cls = rng.choice(["dyadic", "dyadic", "tie", "tie", "float", "edge", "rzero", "int", "centred", "large", "bigtie", "huge"])
     half = n / 2.0
     base = 0.0 if origin == "middle" else half          # centre of the array in the coordinates of `origin`
     if cls == "dyadic":
@@ -79,6 +85,34 @@ def gen_circle(rng, nmax):
         r = 0.0
     elif cls == "int":
         r, cx, cy = rng.randint(0, n), int(base) + rng.randint(-2, 2), int(base) + rng.randint(-2, 2)
+    elif cls == "large":
+        # centre far outside the array (2^10 … 2^20 pixels away), radius of the same size so that the boundary crosses the array;
+        # half-integer data: every product has at most 44 significant bits, the arithmetic is still exact in binary64
+        m = float(2 ** rng.randint(10, 20))
+        ax = rng.choice(["x", "y", "xy"])
+        cx = base + (rng.choice([-m, m]) if "x" in ax else 0.0) + dy(rng, -half, half, 1)
+        cy = base + (rng.choice([-m, m]) if "y" in ax else 0.0) + dy(rng, -half, half, 1)
+        r = max(0.0, (m if ax != "xy" else float(math.isqrt(int(2 * m * m)))) + dy(rng, -n, n, 1))
+    elif cls == "bigtie":
+        # a pixel centre at distance EXACTLY r from a far-away centre: Pythagorean triple scaled by 2^8 … 2^18
+        a, b, c = rng.choice(TRIPLES)
+        s = float(2 ** rng.randint(8, 18))
+        i, j = rng.randrange(n), rng.randrange(n)
+        sx, sy = rng.choice([-1, 1]), rng.choice([-1, 1])
+        ccx, ccy = j + 0.5 - sx * a * s, i + 0.5 - sy * b * s
+        r = c * s
+        cx, cy = (ccx - half, ccy - half) if origin == "middle" else (ccx, ccy)
+    elif cls == "huge":
+        # astronomically large radius and/or centre (squares overflow to +inf, or are ~1e300): compared like the arbitrary doubles
+        k = rng.choice(["r", "r", "c", "both"])
+        if k == "r":
+            r, cx, cy = rng.choice([1e300, 1.5e160, 3e154, 1e30]), base + dy(rng, -half, half, 2), base + dy(rng, -half, half, 2)
+        elif k == "c":
+            r = dy(rng, 0, n, 2)
+            cx, cy = base + rng.choice([-1e300, 1e300, 2e155, 1e30]), base + rng.choice([0.0, -1e300, 1e200, 1e30])
+        else:
+            m = rng.choice([1e150, 1e100, 1e20, 1e9])
+            r, cx, cy = m * rng.uniform(0.5, 2), base + m * rng.uniform(-1, 1), base + m * rng.uniform(-1, 1)
     else:                                              # centred
         r, cx, cy = dy(rng, 0, n, 2), base, base
     return cls, r, n, cx, cy, origin
@@ -99,11 +133,45 @@ def exact_circle(r, n, cx, cy, origin):
     return out, marg
 
 
-def gen_mask(rng, n0, n1):
+VIEWS = ["transposed", "every-other", "reversed", "fortran", "offset-window"]
+
+
+def as_view(rng, m):
+    """the same values as a NON-CONTIGUOUS array (a view into a larger / differently ordered buffer)"""
+    how = rng.choice(VIEWS)
+    n0, n1 = m.shape
+    if how == "transposed":
+        v = numpy.ascontiguousarray(m.T).T
+    elif how == "every-other":
+        big = numpy.full((2 * n0, 3 * n1), 7, dtype=m.dtype)
+        big[::2, ::3] = m
+        v = big[::2, ::3]
+    elif how == "reversed":
+        v = numpy.ascontiguousarray(m[::-1, ::-1])[::-1, ::-1]
+    elif how == "fortran":
+        v = numpy.asfortranarray(m)
+    else:
+        big = numpy.full((n0 + 3, n1 + 2), 7, dtype=m.dtype)
+        big[2:2 + n0, 1:1 + n1] = m
+        v = big[2:2 + n0, 1:1 + n1]
+    assert numpy.array_equal(v, m) and v.dtype == m.dtype
+    return how, v
+
+
+MASK_KINDS = ["circle", "circle", "bits", "bits", "dyadic", "ring", "ones", "int", "bool", "f32", "u8", "f32dy", "intcircle", "view", "view"]
+
+
+def gen_mask(rng, n0, n1, nondyadic=False):
+    """(kind, mask).  All kinds but `nondy` hold multiples of 1/8 in [0, 1]: every partial sum is then exact in binary64 whatever the
+    order of summation (pairwise in ndarray.mean, left-to-right in the model), so the cell mean is ONE correctly rounded division.
+    `nondy` (oracle only, compared with a tolerance) holds arbitrary values of [0, 1] such as 0.1, 0.3, 0.7."""
     from aotools.functions.pupil import circle
-    kind = rng.choice(["circle", "circle", "bits", "bits", "dyadic", "ring", "ones", "int", "bool"])
+    kind = rng.choice(MASK_KINDS + (["nondy", "nondy", "nondy"] if nondyadic else []))
+    p = rng.choice([0.2, 0.5, 0.8])
+    bits = lambda: numpy.array([[1.0 if rng.random() < p else 0.0 for _ in range(n1)] for _ in range(n0)])
+    circ = lambda: circle(dy(rng, 0, n0 * 0.75, 2), n0, (dy(rng, -1, 1, 1), dy(rng, -1, 1, 1)))
     if kind == "circle" and n0 == n1:
-        m = circle(dy(rng, 0, n0 * 0.75, 2), n0, (dy(rng, -1, 1, 1), dy(rng, -1, 1, 1)))
+        m = circ()
     elif kind == "ring" and n0 == n1:
         m = circle(n0 / 2.0, n0) - circle(n0 / 8.0, n0)
     elif kind == "dyadic":
@@ -111,19 +179,66 @@ def gen_mask(rng, n0, n1):
     elif kind == "ones":
         m = numpy.ones((n0, n1))
     elif kind == "int":
-        m = numpy.array([[rng.randint(0, 1) for _ in range(n1)] for _ in range(n0)], dtype=int)
+        m = bits().astype(int)
+    elif kind == "intcircle" and n0 == n1:
+        m = circ().astype(int)
     elif kind == "bool":
-        m = numpy.array([[rng.randint(0, 1) for _ in range(n1)] for _ in range(n0)], dtype=bool)
+        m = bits().astype(bool)
+    elif kind == "u8":
+        m = bits().astype(numpy.uint8)
+    elif kind == "f32":
+        m = (circ() if (n0 == n1 and rng.random() < 0.5) else bits()).astype(numpy.float32)
+    elif kind == "f32dy":
+        m = numpy.array([[rng.randint(0, 8) / 8.0 for _ in range(n1)] for _ in range(n0)], dtype=numpy.float32)
+    elif kind == "view":
+        base = (circ() if (n0 == n1 and rng.random() < 0.5) else bits()).astype(rng.choice([float, float, numpy.float32, bool, numpy.uint8]))
+        how, m = as_view(rng, base)
+        kind = "view:" + how
+    elif kind == "nondy":
+        pal = rng.choice([[0.0, 1.0, 0.1, 0.3, 0.7], [0.0, 0.9, 1.0, 1.0 / 3], None])
+        m = numpy.array([[(rng.choice(pal) if pal else rng.random()) for _ in range(n1)] for _ in range(n0)])
+        if rng.random() < 0.3:
+            m = m.astype(numpy.float32)
     else:
         kind = "bits"
-        p = rng.choice([0.2, 0.5, 0.8])
-        m = numpy.array([[1.0 if rng.random() < p else 0.0 for _ in range(n1)] for _ in range(n0)])
+        m = bits()
     return kind, m
 
 
-def gen_threshold(rng, mask, subaps):
-    """dyadic thresholds, plus thresholds equal to a value some cell mean can take (ties mean == threshold)"""
-    k = rng.choice(["dyadic", "tie", "tie", "zero", "one", "big"])
+def exact_sums(mask):
+    """True when every value is a multiple of 1/8 of magnitude ≤ 8: all partial sums of a cell are then exact in binary64"""
+    v = numpy.asarray(mask, dtype=float)
+    return bool(numpy.all(numpy.isfinite(v)) and numpy.all(v * 8 == numpy.round(v * 8)) and numpy.all(numpy.abs(v) <= 8))
+
+
+def exact_means(mask, cells):
+    """the exact rational mean of every grid cell"""
+    return {xy: sum(Fr(float(mask[p, q])) for p, q in px) / len(px) for xy, px in cells.items()}
+
+
+def block_cells(subaps, n0, n1):
+    """the grid cells when the sub-aperture count divides both mask sizes: the exact (n0/subaps)×(n1/subaps) blocks"""
+    a, b = n0 // subaps, n1 // subaps
+    return {(x, y): [(p, q) for p in range(x * a, (x + 1) * a) for q in range(y * b, (y + 1) * b)]
+            for x in range(subaps) for y in range(subaps)}
+
+
+def wrap_threshold(rng, thr):
+    """the same number as the different scalar types a caller passes: Python float, numpy.float64 (NOT a weak scalar under NEP 50:
+    a float32 mean is then compared in double precision), numpy.float32 / int when it is exactly representable"""
+    opts = ["float", "float", "f64", "f64"]
+    if float(numpy.float32(thr)) == thr:
+        opts.append("f32")
+    if thr in (0.0, 1.0):
+        opts.append("int")
+    k = rng.choice(opts)
+    return k, {"float": float, "f64": numpy.float64, "f32": numpy.float32, "int": int}[k](thr)
+
+
+def gen_threshold(rng, mask, subaps, fills=None):
+    """dyadic thresholds, thresholds equal to a value some cell mean can take, and — given the exact fills of the cells of THIS mask —
+    thresholds equal to the fill k/N of an existing cell (tie mean == threshold, N any cell size) or its two binary64 neighbours"""
+    k = rng.choice(["dyadic", "tie", "zero", "one", "big"] + (["cellfill", "cellfill", "cellfill", "cellfill+", "cellfill-"] if fills else ["tie"]))
     if k == "dyadic":
         return k, dy(rng, 0, 1, 4)
     if k == "zero":
@@ -132,10 +247,25 @@ def gen_threshold(rng, mask, subaps):
         return k, 1.0
     if k == "big":
         return k, 1.5
+    if k.startswith("cellfill"):
+        f = float(rng.choice(sorted(set(fills))))
+        if k == "cellfill+":
+            f = math.nextafter(f, 2.0)
+        elif k == "cellfill-" and f > 0:
+            f = math.nextafter(f, -1.0)
+        return k, f
     n0, n1 = mask.shape
     a, b = max(1, round(n0 / subaps)), max(1, round(n1 / subaps))
     cnt = a * b
     return k, float(numpy.float64(rng.randint(0, cnt)) / numpy.float64(cnt))   # a value sum/count takes exactly
+
+
+def ulps(a, b):
+    """distance of two finite doubles in units in the last place of the larger"""
+    a, b = float(a), float(b)
+    if a == b:
+        return 0.0
+    return abs(a - b) / math.ulp(max(abs(a), abs(b)))
 
 
 def mask_wire(mask):
@@ -221,33 +351,64 @@ def correspondence(chk, quick):
                 ("bounds", subaps, n))
             chk.count("corr:bounds:%s" % ("dvd" if n % subaps == 0 else "ndvd"))
     # findActiveSubaps (returnFill) and computeFillFactor
+    def fills_of(mask, subaps):
+        """exact fills (correctly rounded quotients) of the non-empty cells, bounds as the code computes them"""
+        n0, n1 = mask.shape
+        bx = [int(numpy.round(x * (n0 / float(subaps)))) for x in range(subaps + 1)]
+        by = [int(numpy.round(y * (n1 / float(subaps)))) for y in range(subaps + 1)]
+        out = []
+        for x in range(subaps):
+            for y in range(subaps):
+                sub = numpy.asarray(mask, dtype=float)[bx[x]:bx[x + 1], by[y]:by[y + 1]]
+                if sub.size:
+                    out.append(float(sum(Fr(float(v)) for v in sub.ravel()) / sub.size))
+        return out
+
+    def active_case(subaps, mask, kind, tk, thr):
+        n0, n1 = mask.shape
+        wk, wthr = wrap_threshold(rng, thr)
+        with numpy.errstate(all="ignore"):
+            coords, fills = wfslib.findActiveSubaps(subaps, mask, wthr, returnFill=True)
+            coords2 = wfslib.findActiveSubaps(subaps, mask, wthr)
+        s0, s1 = n0 / float(subaps), n1 / float(subaps)
+        items = []
+        same = numpy.array_equal(coords, coords2) and len(coords) == len(fills)
+        for (cx, cy), f in zip(numpy.asarray(coords).reshape(-1, 2), fills):
+            x = [k for k in range(subaps) if k * s0 == cx]
+            y = [k for k in range(subaps) if k * s1 == cy]
+            items.append("%s %s %s %s %s" % (x[0] if len(x) == 1 else "?", y[0] if len(y) == 1 else "?", H(cx), H(cy), H(float(f))))
+        exp = " | ".join([str(len(items))] + items) if same else "returnFill changes the coordinates"
+        add("C14 active %d %d %d %s %s" % (subaps, n0, n1, H(thr), mask_wire(mask)), exp,
+            ("active", kind, tk, wk, subaps, n0, n1, repr(thr), mask_wire(mask)[:200]))
+        chk.count("corr:active:%s:%s:%s" % (kind, tk, "dvd" if n0 % subaps == 0 and n1 % subaps == 0 else "ndvd"))
+        chk.count("corr:active:threshold-type:%s" % wk)
+        if n0 == n1 and len(items):
+            with numpy.errstate(all="ignore"):
+                ff = wfslib.computeFillFactor(mask, coords, s0)
+            add("C14 fill %d %d %s %d %s %s" % (n0, n1, H(s0), len(coords), " ".join(H(v) for v in coords.ravel()), mask_wire(mask)),
+                " ".join(H(float(v)) for v in ff), ("fill", kind, subaps, n0, mask_wire(mask)[:200]))
+            chk.count("corr:fill:%s" % ("dvd" if n0 % subaps == 0 else "ndvd"))
+
     for it in range(400 if quick else 3000):
         with CorrGuard(chk):
             n0 = rng.randint(1, 10 if quick else 16)
             n1 = n0 if rng.random() < 0.7 else rng.randint(1, 10)
             subaps = rng.choice([d for d in range(1, n0 + 1) if n0 % d == 0]) if rng.random() < 0.5 else rng.randint(1, n0 + 2)
             kind, mask = gen_mask(rng, n0, n1)
-            tk, thr = gen_threshold(rng, mask, subaps)
-            with numpy.errstate(all="ignore"):
-                coords, fills = wfslib.findActiveSubaps(subaps, mask, thr, returnFill=True)
-                coords2 = wfslib.findActiveSubaps(subaps, mask, thr)
-            s0, s1 = n0 / float(subaps), n1 / float(subaps)
-            items = []
-            same = numpy.array_equal(coords, coords2) and len(coords) == len(fills)
-            for (cx, cy), f in zip(numpy.asarray(coords).reshape(-1, 2), fills):
-                x = [k for k in range(subaps) if k * s0 == cx]
-                y = [k for k in range(subaps) if k * s1 == cy]
-                items.append("%s %s %s %s %s" % (x[0] if len(x) == 1 else "?", y[0] if len(y) == 1 else "?", H(cx), H(cy), H(f)))
-            exp = " | ".join([str(len(items))] + items) if same else "returnFill changes the coordinates"
-            add("C14 active %d %d %d %s %s" % (subaps, n0, n1, H(thr), mask_wire(mask)), exp,
-                ("active", kind, tk, subaps, n0, n1, repr(thr), mask_wire(mask)[:200]))
-            chk.count("corr:active:%s:%s:%s" % (kind, tk, "dvd" if n0 % subaps == 0 and n1 % subaps == 0 else "ndvd"))
-            if n0 == n1 and len(items):
-                with numpy.errstate(all="ignore"):
-                    ff = wfslib.computeFillFactor(mask, coords, s0)
-                add("C14 fill %d %d %s %d %s %s" % (n0, n1, H(s0), len(coords), " ".join(H(v) for v in coords.ravel()), mask_wire(mask)),
-                    " ".join(H(v) for v in ff), ("fill", kind, subaps, n0, mask_wire(mask)[:200]))
-                chk.count("corr:fill:%s" % ("dvd" if n0 % subaps == 0 else "ndvd"))
+            tk, thr = gen_threshold(rng, mask, subaps, fills_of(mask, subaps))
+            active_case(subaps, mask, kind, tk, thr)
+    # ties mean == threshold on cells whose size is NOT a power of two (5×5, 10×10, 6×6, 7×7, 3×3 …): the mean k/N is a rounded
+    # quotient there, and `mean ≥ threshold` is no longer the same binary64 test as `sum ≥ threshold·N`
+    tie_shapes = [(5, 1), (10, 2), (10, 1), (12, 2), (14, 2), (7, 1), (20, 2), (15, 3), (9, 3), (6, 1)]
+    for (n, subaps) in tie_shapes:
+        for it in range(6 if quick else 40):
+            with CorrGuard(chk):
+                kind, mask = gen_mask(rng, n, n)
+                fl = fills_of(mask, subaps)
+                tk, thr = rng.choice([("cellfill", float(rng.choice(fl))), ("cellfill", float(rng.choice(fl))),
+                                      ("cellfill+", math.nextafter(float(rng.choice(fl)), 2.0)),
+                                      ("cellfill-", math.nextafter(float(rng.choice(fl)), -1.0))])
+                active_case(subaps, mask, kind, tk + ":cell%d" % ((n // subaps) ** 2), thr)
     # every 0/1 mask up to 3×3 (quick) / 4×4 (thorough), every sub-aperture count 1..n+1, thresholds cycling through a ladder that
     # contains every value a cell mean can take (ties) and dyadic values in between
     for n in ([1, 2, 3] if quick else [1, 2, 3, 4]):
@@ -271,8 +432,12 @@ def correspondence(chk, quick):
     for it in range(120 if quick else 800):
         with CorrGuard(chk):
             nx = rng.randint(1, 6)
-            flags = [[rng.choice([0, 1, 1, 2]) if rng.random() < 0.9 else 0 for _ in range(nx)] for _ in range(nx)]
-            mask = numpy.array(flags)
+            mdt = rng.choice(["int", "int", "bool", "uint8", "float32", "float64"])
+            vals = {"int": [0, 1, 1, 2], "bool": [0, 1, 1], "uint8": [0, 1, 1, 2], "float32": [0, 1, 1, 0.5], "float64": [0, 1, 1, 0.5, 2]}[mdt]
+            flags = [[rng.choice(vals) if rng.random() < 0.9 else 0 for _ in range(nx)] for _ in range(nx)]
+            mask = numpy.array(flags, dtype={"int": int, "bool": bool, "uint8": numpy.uint8, "float32": numpy.float32, "float64": float}[mdt])
+            if rng.random() < 0.25:
+                mask = as_view(rng, mask)[1]
             nv = int((mask == 1).sum())
             extra = rng.choice([0, 0, 1])                       # more data than valid positions: the surplus is ignored
             frames = rng.randint(1, 3)
@@ -285,8 +450,9 @@ def correspondence(chk, quick):
                                             " ".join(str(int(v)) for v in out[f, c][mask == 1]), nv)
                     add("C14 scatter %d %s %s" % (nx, " ".join(str(1 if v == 1 else 0) for v in mask.ravel()),
                                                   " ".join(str(int(v)) for v in data[f, c])), exp.replace("  ", " "),
-                        ("scatter", nx, str(flags), f, c))
+                        ("scatter", nx, mdt, str(flags), f, c))
             chk.count("corr:scatter:nx%d" % nx)
+            chk.count("corr:scatter:mask-%s" % mdt)
     # malformed lines: the driver must refuse, never default
     for bad in ("C14 circle 3ff0000000000000 5", "C14 active 0 2 2 3ff0000000000000 0 0 0 0", "C14 nosuch", "C14 round 12"):
         add(bad, "bad-op", ("malformed", bad))
@@ -379,7 +545,7 @@ def oracle(chk, quick):
                 for j in range(n):
                     if got[i, j] != want[i, j]:
                         mg = marg[i][j]
-                        if cls == "float" and abs(mg) <= Fr(1, 10 ** 9) * max(1, Fr(r) ** 2):
+                        if cls in ("float", "huge") and abs(mg) <= Fr(1, 10 ** 9) * max(1, Fr(r) ** 2, Fr(cx) ** 2, Fr(cy) ** 2):
                             continue                          # binary64 rounding may decide a near-tie either way
                         bad("circle:indicator:%s%s" % (origin, ":tie" if mg == 0 else ""),
                             "circle(%r,%d,(%r,%r),%r)[%d,%d]=%g but the pixel centre (%s,%s) is at squared distance r²%+g from the centre"
@@ -389,7 +555,7 @@ def oracle(chk, quick):
                     continue
                 break
             # nested in r
-            r2 = r + dy(rng, 0, 3, 3) if cls != "float" else r + rng.uniform(0, 3)
+            r2 = r + dy(rng, 0, 3, 3) if cls not in ("float", "huge") else r + rng.uniform(0, 3) * rng.choice([1.0, max(r, 1.0) * 2.0 ** -40])
             big = circle(r2, n, (cx, cy), origin)
             if (got > big).any():
                 i, j = map(int, numpy.argwhere(got > big)[0])
@@ -405,7 +571,7 @@ def oracle(chk, quick):
                         bad("circle:symmetry:" + nm, "centred circle(%r,%d) differs from its %s" % (r, n, nm), **rep)
                         break
             # integer translation of the centre moves the pattern
-            if cls != "float":
+            if cls not in ("float", "huge"):
                 a, b = rng.randint(-3, 3), rng.randint(-3, 3)
                 sh = circle(r, n, (cx + a, cy + b), origin)
                 # sh[i+b, j+a] == got[i, j] wherever both are inside the array
@@ -482,88 +648,222 @@ def oracle(chk, quick):
         with Guard(chk, 'active') as g:
             subaps, n0, n1 = rng.choice(keys)
             cells = geo[(subaps, n0, n1)]
-            kind, mask = gen_mask(rng, n0, n1)
-            tk, thr = gen_threshold(rng, mask, subaps)
-            chk.oracle_cases += 1
-            chk.count("oracle:active:%s:%s" % (kind, tk))
-            chk.case(("oracle", "active", subaps, n0, n1, repr(thr), mask_wire(mask)[:400]),
-                     sample={"findActiveSubaps": [subaps, mask.tolist(), thr]} if it < 2 else None)
-            rep = dict(subaps=subaps, mask=numpy.asarray(mask, dtype=float).tolist(), threshold=thr)
-            g.update(rep)
-            mask_before = numpy.array(mask, copy=True)
-            with numpy.errstate(all="ignore"):
-                coords, fills = wfslib.findActiveSubaps(subaps, mask, thr, returnFill=True)
-                coords_nf = wfslib.findActiveSubaps(subaps, mask, thr)
-            if not numpy.array_equal(mask, mask_before):
-                bad("active:mutates-mask", "findActiveSubaps modifies its mask argument", **rep)
-                mask = mask_before
-            # the mean of a cell, as a binary64 number, is the correctly rounded quotient of the (exactly representable) sum by the count
-            means = {xy: float(sum(Fr(float(mask[p, q])) for p, q in px) / len(px)) for xy, px in cells.items()}
-            want = [xy for xy in sorted(means) if means[xy] >= thr]            # row-major order of the grid
-            s0, s1 = n0 / float(subaps), n1 / float(subaps)
-            got = cell_indices(coords, subaps, n0, n1)
-            if got != want:
-                miss = [xy for xy in want if xy not in got]
-                extra = [g for g in got if g not in want]
-                tie = any(means[xy] == thr for xy in miss)
-                bad(("active:mean-ge" + (":tie" if tie else "")) if (miss or extra) else "active:order",
-                    "findActiveSubaps(%d, %s %dx%d mask, %r): returned cells %s, cells with mean ≥ threshold are %s"
-                    % (subaps, kind, n0, n1, thr, got[:8], want[:8]), **rep)
-                continue
-            if [tuple(c) for c in numpy.asarray(coords).reshape(-1, 2).tolist()] != [(x * s0, y * s1) for x, y in want]:
-                bad("active:coords", "findActiveSubaps(%d, %dx%d mask): coordinates are not [x·xSpacing, y·ySpacing]" % (subaps, n0, n1), **rep)
-            if not numpy.array_equal(coords, coords_nf):
-                bad("active:returnFill", "returnFill changes the selected sub-apertures", **rep)
-            if [float(f) for f in fills] != [means[xy] for xy in want]:
-                bad("active:fills", "fills returned by findActiveSubaps(%d, %s %dx%d mask, %r) are not the cell means" % (subaps, kind, n0, n1, thr), **rep)
-            # antitone in the threshold
-            thr2 = thr + dy(rng, 0, 1, 4) * rng.choice([0.25, 1.0])
-            with numpy.errstate(all="ignore"):
-                c2 = wfslib.findActiveSubaps(subaps, mask, thr2)
-            small, large = [tuple(c) for c in numpy.asarray(c2).reshape(-1, 2).tolist()], [tuple(c) for c in numpy.asarray(coords).reshape(-1, 2).tolist()]
-            itl = iter(large)
-            if not all(any(s == l for l in itl) for s in small):
-                bad("active:antitone", "raising the threshold %r→%r adds sub-apertures (subaps=%d, %dx%d %s mask)" % (thr, thr2, subaps, n0, n1, kind),
-                    threshold2=thr2, **rep)
-            # fill factors agree with computeFillFactor when the mask size is a multiple of the sub-aperture count
-            if n0 == n1 and n0 % subaps == 0 and len(want):
-                with numpy.errstate(all="ignore"):
-                    ff = wfslib.computeFillFactor(mask, coords, n0 // subaps)
-                    ff2 = wfslib.computeFillFactor(mask, coords, n0 / float(subaps))
-                if not (numpy.array_equal(ff, fills) and numpy.array_equal(ff2, fills)):
-                    bad("fill:agree", "computeFillFactor(mask, coords, %d) = %s ≠ fills of findActiveSubaps = %s (subaps=%d, n=%d)"
-                        % (n0 // subaps, ff[:6], fills[:6], subaps, n0), **rep)
-                chk.count("oracle:fill-agree")
+            kind, mask = gen_mask(rng, n0, n1, nondyadic=True)
+            tk, thr = gen_threshold(rng, mask, subaps, [float(m) for m in exact_means(mask, cells).values()])
+            check_active(chk, g, wfslib, subaps, mask, thr, cells, kind, tk, sample=it < 2)
+    # ---- ties mean == threshold where the mean k/N is NOT a binary fraction (5×5, 10×10, 6×6, 7×7, 3×3 … cells): one cell is given
+    # exactly k transparent pixels for EVERY k = 0..N, the threshold is the binary64 number k/N (and its neighbours)
+    tie_shapes = [(5, 1), (10, 2), (10, 1), (20, 2), (12, 2), (6, 1), (14, 2), (7, 1), (15, 3), (9, 3), (21, 3), (10, 5), (12, 3)]
+    if not quick:
+        tie_shapes += [(30, 3), (50, 5), (18, 3), (22, 2), (13, 1), (24, 2), (33, 3)]
+    mdts = [float, numpy.float32, numpy.uint8, bool, int]
+    for (n, subaps) in tie_shapes:
+        cells = block_cells(subaps, n, n)
+        N = (n // subaps) ** 2
+        for k in range(N + 1):
+            with Guard(chk, 'active:tie') as g:
+                p = rng.choice([0.2, 0.5, 0.8, k / float(N)])
+                mask = numpy.array([[1.0 if rng.random() < p else 0.0 for _ in range(n)] for _ in range(n)])
+                target = rng.choice(sorted(cells))
+                px = list(cells[target])
+                rng.shuffle(px)
+                for t, (a, b) in enumerate(px):
+                    mask[a, b] = 1.0 if t < k else 0.0
+                mdt = mdts[(k + n) % len(mdts)]
+                mask = mask.astype(mdt)
+                kind = "ktie:" + numpy.dtype(mdt).name
+                if rng.random() < 0.2:
+                    how, mask = as_view(rng, mask)
+                    kind += ":view:" + how
+                f = float(Fr(k, N))
+                tk, thr = rng.choice([("cellfill", f)] * 4 + [("cellfill+", math.nextafter(f, 2.0)), ("cellfill-", math.nextafter(f, -1.0))])
+                check_active(chk, g, wfslib, subaps, mask, thr, cells, kind, tk + ":cell%d" % N, sample=False)
+    # ---- the documented use: a telescope pupil cut into sub-apertures, thresholds equal to the fills that occur
+    pupils = [(100, 10), (50, 5), (40, 4), (70, 7)] if quick else [(100, 10), (50, 5), (40, 4), (70, 7), (120, 10), (120, 12), (90, 9), (110, 10), (60, 5)]
+    for (n, subaps) in pupils:
+        cells = block_cells(subaps, n, n)
+        for obsc in (0.0, 0.25):
+            with Guard(chk, 'active:pupil') as g:
+                mask = circle(n / 2.0, n) - (circle(n * obsc / 2.0, n) if obsc else 0.0)
+                fl = sorted({float(m) for m in exact_means(mask, cells).values()})
+                for mdt in ([float, numpy.float32] if quick else [float, numpy.float32, int, bool]):
+                    for thr in fl:
+                        check_active(chk, g, wfslib, subaps, mask.astype(mdt), thr, cells, "pupil:" + numpy.dtype(mdt).name,
+                                     "cellfill:cell%d" % ((n // subaps) ** 2), sample=False, light=True)
     # ---- make_subaps_2d then masked read-back
-    for it in range(500 if quick else 4000):
+    import warnings
+    MD = {"float64": float, "float32": numpy.float32, "int64": numpy.int64, "uint8": numpy.uint8, "bool": bool, "int8": numpy.int8}
+    for it in range(700 if quick else 5000):
         with Guard(chk, 'scatter') as g:
             nx = rng.randint(1, 8)
-            vals = rng.choice([[0, 1], [0, 1, 1, 1], [0, 1, 2], [0, 1, 0.5]])
-            mask = numpy.array([[rng.choice(vals) for _ in range(nx)] for _ in range(nx)])
+            mdt = rng.choice(["float64", "float64", "float32", "int64", "uint8", "bool", "int8"])
+            vals = rng.choice([[0, 1], [0, 1, 1, 1]] + ([] if mdt == "bool" else [[0, 1, 2]]) + ([[0, 1, 0.5]] if mdt.startswith("float") else []))
+            mask = numpy.array([[rng.choice(vals) for _ in range(nx)] for _ in range(nx)]).astype(MD[mdt])
             if rng.random() < 0.3:
-                mask = (circle(nx / 2.0, nx) if rng.random() < .5 else circle(nx / 2.0, nx) - circle(nx / 6.0, nx))
+                mask = (circle(nx / 2.0, nx) if rng.random() < .5 else circle(nx / 2.0, nx) - circle(nx / 6.0, nx)).astype(MD[mdt])
+            view = ""
+            if rng.random() < 0.25:
+                view, mask = as_view(rng, mask)
             nv = int((mask == 1).sum())
             frames = rng.randint(1, 4)
-            dt = rng.choice([float, int, numpy.float32])
+            dt = rng.choice(["float64", "float64", "int64", "float32", "complex128", "bigint"])
             nprng = numpy.random.default_rng(rng.getrandbits(32))
-            data = (nprng.integers(1, 1000, (frames, 2, nv)).astype(dt) if dt is int else (nprng.uniform(1, 2, (frames, 2, nv))).astype(dt))
+            shape = (frames, 2, nv)
+            # data that no narrower container can hold: full 53-bit mantissas, non-zero imaginary parts, integers above 2^53
+            if dt == "float64":
+                data = nprng.uniform(1, 2, shape) * nprng.choice([-1.0, 1.0, 1e-3, 1e3], shape)
+            elif dt == "float32":
+                data = nprng.uniform(1, 2, shape).astype(numpy.float32)
+            elif dt == "int64":
+                data = nprng.integers(-1000, 1000, shape)
+            elif dt == "bigint":
+                data = nprng.integers(2 ** 53 + 1, 2 ** 62, shape) | 1
+            else:
+                data = nprng.uniform(1, 2, shape) + 1j * nprng.uniform(1, 2, shape)
+            if rng.random() < 0.2 and nv:
+                big = numpy.zeros((frames, 2, 2 * nv), dtype=data.dtype)
+                big[:, :, ::2] = data
+                data = big[:, :, ::2]                       # non-contiguous slope data
             chk.oracle_cases += 1
-            chk.count("oracle:scatter:%s" % numpy.dtype(dt).name)
-            chk.case(("oracle", "scatter", nx, mask.tolist().__repr__(), numpy.dtype(dt).name, it),
+            chk.count("oracle:scatter:data-%s" % dt)
+            chk.count("oracle:scatter:mask-%s%s" % (mdt, ":view" if view else ""))
+            chk.case(("oracle", "scatter", nx, mask.tolist().__repr__(), mdt, view, dt, it),
                      sample={"make_subaps_2d": [list(data.shape), mask.tolist()]} if it < 1 else None)
             before = data.copy()
-            rep = dict(mask=mask.tolist(), data=before.tolist(), dtype=numpy.dtype(dt).name)
+            mask_before = mask.copy()
+            rep = dict(mask=mask.tolist(), mask_dtype=mdt, data=[[[str(v) for v in row] for row in fr] for fr in before.tolist()],
+                       dtype=str(before.dtype))
             g.update(rep)
-            out = wfslib.make_subaps_2d(data, mask)
-            if not numpy.array_equal(data, before):
-                bad("scatter:mutates-data", "make_subaps_2d modifies its data argument", **rep)
-            if out.shape != (frames, 2, nx, nx) or out.dtype != data.dtype:
-                bad("scatter:shape", "make_subaps_2d output has shape %s dtype %s" % (out.shape, out.dtype), **rep)
+            with warnings.catch_warnings():
+                warnings.simplefilter("ignore")
+                out = wfslib.make_subaps_2d(data, mask)
+            if not (numpy.array_equal(data, before) and numpy.array_equal(mask, mask_before)):
+                note_broke(chk, "make_subaps_2d modifies its %s argument (the model is a pure function); mask dtype %s, data dtype %s"
+                           % ("data" if not numpy.array_equal(data, before) else "mask", mdt, before.dtype))
+            if getattr(out, "shape", None) != (frames, 2, nx, nx):
+                bad("scatter:shape", "make_subaps_2d output has shape %s for data %s and a %dx%d mask" % (getattr(out, "shape", None), shape, nx, nx), **rep)
                 continue
-            if not numpy.array_equal(out[:, :, mask == 1], before):
-                bad("scatter:roundtrip", "make_subaps_2d(data, mask)[:, :, mask == 1] ≠ data for a %dx%d mask with %d valid sub-apertures" % (nx, nx, nv), **rep)
-            if (out[:, :, mask != 1] != 0).any():
+            back = out[:, :, mask_before == 1]
+            if back.shape != before.shape or not numpy.array_equal(back, before):
+                w = numpy.argwhere(back != before)[0] if back.shape == before.shape else None
+                bad("scatter:roundtrip:mask-%s" % mdt,
+                    "make_subaps_2d(data, mask)[:, :, mask == 1] ≠ data for a %dx%d %s mask with %d valid sub-apertures and %s data%s (map dtype %s)"
+                    % (nx, nx, mdt, nv, before.dtype, "" if w is None else ": data%s = %r comes back as %r" % (list(map(int, w)), before[tuple(w)], back[tuple(w)]),
+                       out.dtype), **rep)
+                continue
+            if (out[:, :, mask_before != 1] != 0).any():
                 bad("scatter:off-mask", "make_subaps_2d writes outside the mask (%dx%d mask)" % (nx, nx), **rep)
+            if out.dtype != before.dtype:
+                note_broke(chk, "make_subaps_2d returns a %s map for %s data and a %s mask (values identical; the model's map has the "
+                                "payload type of the data)" % (out.dtype, before.dtype, mdt))
+
+
+def note_broke(chk, what):
+    """behaviour that differs from the model but is not part of the property's statement (in-place modification of an argument, the
+    dtype of a result whose values are right): a correspondence break, reported at most three times per run"""
+    if sum(1 for b in chk.broken if b["kind"] == "correspondence") < 3:
+        chk.broke("correspondence", what)
+
+
+STATS = {}
+FILL_ULP = 1.0          # fills of exact-sum masks: one correctly rounded division — observed 0 ulp on the clean tree
+NONDY_RTOL = 2.0 ** -43  # masks with arbitrary values (summation order unspecified): rigorous bound (N+1)·2^-53 ≤ 2^-44 for the cells used (N ≤ 400);
+                        # observed on the clean tree, 12 seeds: ≤ 3 ulp (2^-43 is 512…1024 ulp)
+
+
+def check_active(chk, g, wfslib, subaps, mask, thr, cells, kind, tk, sample=False, light=False):
+    """the property on one input of findActiveSubaps / computeFillFactor; `cells` maps grid index -> pixel list"""
+    rng = chk.rng
+    n0, n1 = mask.shape
+    wk, wthr = wrap_threshold(rng, thr)
+    mdt = mask.dtype.name
+    sfx = "" if mdt == "float64" else ":" + mdt
+    chk.oracle_cases += 1
+    chk.count("oracle:active:%s:%s" % (kind, tk))
+    chk.count("oracle:active:threshold-type:%s" % wk)
+    chk.case(("oracle", "active", subaps, n0, n1, repr(thr), wk, mdt, mask_wire(mask)[:400]),
+             sample={"findActiveSubaps": [subaps, numpy.asarray(mask, dtype=float).tolist(), thr]} if sample else None)
+    rep = dict(subaps=subaps, mask=numpy.asarray(mask, dtype=float).tolist(), mask_dtype=mdt, threshold=thr, threshold_type=type(wthr).__name__)
+    g.clear()
+    g.update(rep)
+
+    def bad(key, what, **kw):
+        chk.fail(key, what, dict(rep, **kw))
+
+    mask_before = numpy.array(mask, copy=True)
+    with numpy.errstate(all="ignore"):
+        coords, fills = wfslib.findActiveSubaps(subaps, mask, wthr, returnFill=True)
+        coords_nf = wfslib.findActiveSubaps(subaps, mask, wthr)
+    if not numpy.array_equal(mask, mask_before):
+        note_broke(chk, "findActiveSubaps modifies its mask argument (the model is a pure function)")
+        mask = mask_before
+    exact = exact_sums(mask)
+    M = exact_means(mask, cells)
+    # exact-sum masks: the binary64 mean is the correctly rounded quotient of the (exactly representable) sum by the count, and the
+    # rule is fl(mean) >= threshold; arbitrary masks: cells whose exact mean is within the summation error of the threshold are undecided
+    means = {xy: float(m) for xy, m in M.items()}
+    undecided = set() if exact else {xy for xy, m in M.items() if abs(m - Fr(thr)) <= Fr(NONDY_RTOL) * max(abs(m), abs(Fr(thr)))}
+    want = [xy for xy in sorted(means) if means[xy] >= thr]            # row-major order of the grid
+    s0, s1 = n0 / float(subaps), n1 / float(subaps)
+    got = cell_indices(coords, subaps, n0, n1)
+    if [x for x in got if x not in undecided] != [x for x in want if x not in undecided] or (None in got) or len(set(got)) != len(got):
+        miss = [xy for xy in want if xy not in got and xy not in undecided]
+        extra = [x for x in got if x not in want and x not in undecided]
+        tie = any(means[xy] == thr for xy in miss)
+        bad(("active:mean-ge" + (":tie" if tie else "") + sfx) if (miss or extra) else "active:order",
+            "findActiveSubaps(%d, %s %dx%d %s mask, %s(%r)): returned cells %s, cells with mean ≥ threshold are %s%s"
+            % (subaps, kind, n0, n1, mdt, type(wthr).__name__, thr, got[:8], want[:8],
+               "; missing cell %s has %s of its %d pixels transparent, mean %r" % (miss[0], sum(Fr(float(mask[p, q])) for p, q in cells[miss[0]]),
+                                                                                   len(cells[miss[0]]), means[miss[0]]) if miss else ""))
+        return
+    sel = got
+    if [tuple(c) for c in numpy.asarray(coords, dtype=float).reshape(-1, 2).tolist()] != [(x * s0, y * s1) for x, y in sel]:
+        bad("active:coords", "findActiveSubaps(%d, %dx%d mask): coordinates are not [x·xSpacing, y·ySpacing]" % (subaps, n0, n1))
+    if not numpy.array_equal(coords, coords_nf):
+        bad("active:returnFill", "returnFill changes the selected sub-apertures")
+    if len(fills) != len(sel):
+        bad("active:fills", "findActiveSubaps(%d, %s %dx%d mask, %r) returns %d fills for %d sub-apertures" % (subaps, kind, n0, n1, thr, len(fills), len(sel)))
+        return
+    for xy, f in zip(sel, fills):
+        f = float(f)
+        okf = (ulps(f, means[xy]) <= FILL_ULP) if exact else (abs(f - means[xy]) <= NONDY_RTOL * abs(means[xy]))
+        if not okf:
+            bad("active:fills" + sfx, "fill of cell %s returned by findActiveSubaps(%d, %s %dx%d %s mask, %r) is %r, the cell mean is %r"
+                % (xy, subaps, kind, n0, n1, mdt, thr, f, means[xy]), cell=list(xy))
+            break
+        key = "fill_ulp_exact" if exact else "fill_ulp_nondy"
+        STATS[key] = max(STATS.get(key, 0.0), ulps(f, means[xy]))
+    if not exact:
+        STATS["nondy_undecided_cells"] = STATS.get("nondy_undecided_cells", 0) + len(undecided)
+        STATS["nondy_cases"] = STATS.get("nondy_cases", 0) + 1
+    if light:
+        return
+    # antitone in the threshold
+    thr2 = thr + dy(rng, 0, 1, 4) * rng.choice([0.25, 1.0, 2.0 ** -30])
+    with numpy.errstate(all="ignore"):
+        c2 = wfslib.findActiveSubaps(subaps, mask, thr2)
+    small, large = [tuple(c) for c in numpy.asarray(c2).reshape(-1, 2).tolist()], [tuple(c) for c in numpy.asarray(coords).reshape(-1, 2).tolist()]
+    itl = iter(large)
+    if not all(any(s == l for l in itl) for s in small):
+        bad("active:antitone", "raising the threshold %r→%r adds sub-apertures (subaps=%d, %dx%d %s mask)" % (thr, thr2, subaps, n0, n1, kind),
+            threshold2=thr2)
+    # fill factors agree with computeFillFactor when the mask size is a multiple of the sub-aperture count
+    if n0 == n1 and n0 % subaps == 0 and len(sel):
+        with numpy.errstate(all="ignore"):
+            ff = wfslib.computeFillFactor(mask, coords, n0 // subaps)
+            ff2 = wfslib.computeFillFactor(mask, coords, n0 / float(subaps))
+        for nm, v in (("%d" % (n0 // subaps), ff), ("%r" % (n0 / float(subaps)), ff2)):
+            v = numpy.asarray(v, dtype=float)
+            fl = numpy.asarray(fills, dtype=float)
+            if v.shape == fl.shape and len(v):
+                key = "agree_ulp_exact" if exact else "agree_ulp_nondy"
+                STATS[key] = max(STATS.get(key, 0.0), max(ulps(a, b) for a, b in zip(v, fl)))
+            agree = v.shape == fl.shape and all((ulps(a, b) <= FILL_ULP) if exact else (abs(a - b) <= NONDY_RTOL * abs(b)) for a, b in zip(v, fl))
+            if not agree:
+                bad("fill:agree" + sfx, "computeFillFactor(mask, coords, %s) = %s ≠ fills of findActiveSubaps = %s (subaps=%d, n=%d, %s %s mask)"
+                    % (nm, v[:6], fl[:6], subaps, n0, kind, mdt))
+                break
+        chk.count("oracle:fill-agree")
 
 
 def exhaustive_small(chk, quick):
@@ -604,16 +904,33 @@ def exhaustive_small(chk, quick):
 def run(chk):
     quick = chk.tier == "quick"
     chk.rule = ("correspondence: the Lean model run at binary64 vs the real code, compared EXACTLY (bit patterns of coordinates and "
-                "fills, 0/1 patterns, integers) - every model operation is one IEEE operation in both worlds; oracle: the property "
-                "evaluated on the real code in exact rational arithmetic on dyadic inputs (ties distance==radius and mean==threshold "
-                "included), near-ties (|d²-r²|≤1e-9·r²) skipped only for the arbitrary-double class; distinct = distinct input tuples")
+                "fills, 0/1 patterns, integers) - every model operation is one IEEE operation in both worlds (masks there hold multiples "
+                "of 1/8, so no partial sum is rounded and the order of summation does not matter); oracle: the property evaluated on the "
+                "real code in exact rational arithmetic - circle: exact on dyadic inputs incl. ties distance==radius near and 2^8..2^20 "
+                "pixels away, near-ties (|d²-r²| ≤ 1e-9·max(1,r²,c²)) skipped only for the arbitrary-double and the 1e9..1e300 classes; "
+                "findActiveSubaps: cells with fl(exact mean) >= threshold, fl = correctly rounded to binary64, for masks with exact sums "
+                "(0/1, k/8; every dtype), ties mean==threshold=k/N for EVERY k on cells of 9/25/36/49/100 pixels and the two "
+                "neighbouring doubles of k/N; masks with arbitrary values: cells with |mean-threshold| ≤ 2^-43 relative are undecided; "
+                "fills within 1 ulp (exact-sum masks; observed 0) / 2^-43 relative (arbitrary masks; observed ≤ 3 ulp) of the exact mean "
+                "and of computeFillFactor; make_subaps_2d: read-back through mask==1 equals the data VALUE for value (bool, int8, uint8, "
+                "int64, float32, float64 masks × float64, float32, int64, >2^53 integers, complex data); distinct = distinct input tuples")
     chk.assumptions = [
         "no clause of the property is left unproved about the model (the area clause is circle_area_le/_ge/_tendsto); what is "
         "assumed is the model-to-code tie, checked exactly on generated inputs on every run",
         "theorems are exact-arithmetic statements over an ordered field; at binary64 they apply verbatim when the arithmetic is exact "
-        "(dyadic radii/centres; integer sub-aperture spacing, i.e. subaps | n); IEEE rounding is exercised by the bit-exact "
-        "correspondence, not proved",
-        "NumPy slicing, boolean indexing and mean() semantics are mirrored by the model and exercised by the correspondence only",
+        "(dyadic radii/centres; integer sub-aperture spacing, i.e. subaps | n; cell means k/N with N a power of two); IEEE rounding "
+        "(e.g. the mean k/N of a 5x5 or 10x10 cell, one correctly rounded division) is exercised by the bit-exact correspondence and "
+        "by the oracle's reference fl(mean) >= threshold, not proved",
+        "the model adds the pixels of a cell left to right (sumOver) while ndarray.mean adds pairwise/blocked: the bit-exact tie holds "
+        "only because the correspondence masks hold zeros and ones or multiples of 1/8 (every partial sum exact); for masks with "
+        "arbitrary values the order of summation is NOT modelled and the oracle allows the rigorous summation error (N+1)·2^-53 "
+        "(bounded by the tolerance 2^-43) around the exact mean",
+        "NumPy slicing, boolean indexing, dtype promotion (a float64 mean against float/numpy.float64/numpy.float32/int thresholds; the "
+        "map allocated with the data's dtype) and mean() semantics are mirrored by the model and exercised by the correspondence only",
+        "in-place modification of an argument and the dtype of a result whose values are right are not part of the property: they are "
+        "reported as a correspondence break (the model is a pure function with the payload type of the data), not as a violation",
+        "circle with radius and centre BOTH beyond ~1e154 overflows x*x+y*y and r*r to +inf (every pixel selected); such inputs are "
+        "not generated (the 1e9..1e300 class keeps one of the two moderate or both ≤ 2e150)",
     ]
     chk.notes = [
         "domain: r >= 0; subaps >= 1; make_subaps_2d masks are square (its docstring: shape (nxSubaps, nxSubaps)) and data has one entry "
@@ -621,6 +938,10 @@ def run(chk):
         "for both axes, so a (2,3) mask loses its last column and a (3,2) mask raises IndexError",
         "numpy.round (findActiveSubaps) and Python round (computeFillFactor) are both round-half-to-even; one model function roundHE "
         "serves both and the `round` correspondence op checks on every run that the two library roundings still agree",
+        "defect repaired on the pinned tree (fixes/C14-float32-mask-mean.diff): the cell mean of a float32 mask was taken in single "
+        "precision, so a cell filled exactly to the threshold was dropped (70 of 100 pixels, threshold numpy.float64(0.7)) or a cell "
+        "below it selected (threshold 1.0000000000000002 as a Python float is a weak scalar and became float32(1.0)); fills of "
+        "findActiveSubaps were float32; the mean is now taken in double precision in findActiveSubaps and computeFillFactor",
         "a sub-aperture count larger than the mask size gives empty cells whose mean is NaN: they are never selected (model: guard "
         "count != 0; theorem active_iff_mean_ge carries the guard, active_iff_mean_ge' shows it is vacuous for subaps <= n)",
     ]
@@ -629,5 +950,8 @@ def run(chk):
         correspondence(chk, quick)
     except common.LeanError as ex:
         chk.broke("correspondence", "the C14 driver does not build / run", str(ex))
+    STATS.clear()
     oracle(chk, quick)
     exhaustive_small(chk, quick)
+    chk.notes.append("observed in this run (largest deviations, in units in the last place): %s"
+                     % ", ".join("%s=%g" % kv for kv in sorted(STATS.items())))
